@@ -22,6 +22,11 @@ Whole runs, flat configurations (`Sched/Buffer.lean`):
 * `taken_at_first_due_step` : when a simulator begins a step, every buffered value the step takes
   (due at or before it) is due after all its earlier steps: the step is the destination's first step
   at or after the value's due time; and what stays in the buffer is not yet due
+Cache path (`Sched/Prune.lean`):
+* `prune_keeps_pulled` : `prune_dataflow_cache` (as repaired, fix D8) never changes a lookup a consumer can
+  still make: for a source whose output times have not gone back, every cached connection and every step time
+  at or after the consumer's last step, the newest entry at or before (time − shift) is the same in the pruned
+  cache (list-level statement `prune_keeps_lookups`)
 NOT proved: the refinement of whole runs to the history specification (`push_refines_spec`,
 `pull_refines_spec`) — decided by the specification monitor on implementation traces (clean class)
 and by the correspondence; the known findings D8, D12, D14, event-with-initial-data and
@@ -30,6 +35,7 @@ non-monotone output times are exactly where that refinement fails (see known_fin
 import MosaikProofs.Lemmas.Data
 import MosaikProofs.Sched.Reach
 import MosaikProofs.Sched.Buffer
+import MosaikProofs.Sched.Prune
 namespace Mosaik.C03
 open Mosaik
 
@@ -208,5 +214,21 @@ theorem taken_at_first_due_step {cfg : Cfg} (hw : WFCfg cfg) (hs : WFShape cfg) 
     · intro e he
       have := reach_bufOk hw hs hfl hpo (Reach.step hr h) hnf q hq e he c (by rw [hbeg]; exact List.mem_cons_self)
       exact this
+
+/-! ### cache pruning -/
+
+/-- pruning the cache does not change what a consumer can still read -/
+theorem prune_keeps_pulled (cfg : Cfg) (s : State) {q d : Sid} (hq : q < cfg.n) (hd : d < cfg.n)
+    {e : Sid × TI × Port × Port} (he : e ∈ (cfg.sim d).pulled) (heq : e.1 = q) (hsorted : Sorted (s.sims q).outputs)
+    (c : Int) (hc : lastTime s d ≤ c) :
+    getOutputFor ((prune cfg s).sims q).outputs (c - (tier e.2.1.tiers 0 : Int)) =
+    getOutputFor (s.sims q).outputs (c - (tier e.2.1.tiers 0 : Int)) :=
+  prune_state_lookups cfg s hq hd he heq hsorted c hc
+
+/-- non-vacuity and the defect the repair removed: with entries at 0, 2, 5 and `needed = 3` the entry at 2 is kept
+(a step at 4 still reads it); dropping everything older than 3 would lose it -/
+example : (pruneList [(0, []), (2, [((0, 0), some 7)]), (5, [])] 3).map (·.1) = [2, 5] := by decide
+example : getOutputFor (pruneList [(0, []), (2, [((0, 0), some 7)]), (5, [])] 3) 4 = [((0, 0), some 7)] := by decide
+example : getOutputFor ([(0, []), (2, [((0, 0), some 7)]), (5, [])].filter (fun (e : Int × OutData) => decide (e.1 ≥ 3))) 4 = [] := by decide
 
 end Mosaik.C03
